@@ -69,7 +69,7 @@ def run_tape(pid, tier, seed, mc_runs, scen, rule, assumptions, kinds, selftest)
     ok, n, rej = selftest(pid, first, seed)
     chk.cov["selftest"] = {"corrupted_events": n, "rejected": rej, "ok": ok}
     if not ok:
-        raise ToolError("self-test: corrupted events were not all rejected")
+        chk.selftest_failed("corrupted events were not all rejected")
     chk.cov["traces_validated_against_impl"] = runs
     chk.cov["rule"] = rule(quick, shards)
     chk.assumptions += assumptions
